@@ -26,14 +26,21 @@ theorem Rel.int_inv {k : IntTy} {v : Val} {bs : List Bool} (h : Rel (.int k) v b
     ∃ n, v = .int n ∧ k.inRange n = true ∧ bs = enc k n := by
   cases v <;> simp_all [Rel]
 
+/-- `bs` is the encoding of the value `v` of type `t` -/
+def VRel (t : VTy) (v : Val) (bs : List Bool) : Prop :=
+  match t with
+  | .s st => Rel st v bs
+  | .unit => v = Src.unit ∧ bs = []
+  | .agg t => v.hasType t = true ∧ bs = v.encode t
+
 /-- the variables of the source environment and their wires -/
 inductive EnvRel : Src.Env → BEnv → Prop
   | nil : EnvRel [] []
-  | cons {x : String} {v : Val} {t : STy} {bs : List Bool} {env : Src.Env} {benv : BEnv} :
-      Rel t v bs → EnvRel env benv → EnvRel ((x, v) :: env) ((x, t, bs) :: benv)
+  | cons {x : String} {v : Val} {t : VTy} {bs : List Bool} {env : Src.Env} {benv : BEnv} :
+      VRel t v bs → EnvRel env benv → EnvRel ((x, v) :: env) ((x, t, bs) :: benv)
 
-theorem EnvRel.lookup {env : Src.Env} {benv : BEnv} (h : EnvRel env benv) (x : String) (t : STy) (bs : List Bool)
-    (hb : benv.get? x = some (t, bs)) : ∃ v, env.get? x = some v ∧ Rel t v bs := by
+theorem EnvRel.lookup {env : Src.Env} {benv : BEnv} (h : EnvRel env benv) (x : String) (t : VTy) (bs : List Bool)
+    (hb : benv.get? x = some (t, bs)) : ∃ v, env.get? x = some v ∧ VRel t v bs := by
   induction h with
   | nil => simp [BEnv.get?] at hb
   | cons hr _ ih =>
